@@ -96,12 +96,15 @@ DevIdx == { i \in 1..Len(path) : path[i].k \in AllKeys(path[i].p) /\ path[i].k \
 LastDev == IF DevIdx = {} THEN 0 ELSE CHOOSE i \in DevIdx : \A j \in DevIdx : j <= i
 Walk == /\ mode = "walk" /\ UNCHANGED <<mode, chunk>>
         /\ Len(path) < GMDepth
-        /\ (Deviations < GMWide \/ Len(path) - LastDev < GMTail)
+        /\ (Deviations < GMWide \/ GMWide = 0 \/ Len(path) - LastDev < GMTail)      \* (GMWide = 0: representative keys only, no tail rule)
         /\ (slot \in {"query", "q", "u", "arrayFilters", "c"} => Len(path) < GMShallow)
         /\ leaf = CanonLeaf(CurNT)
         /\ UNCHANGED slot
         /\ \/ \E k \in KeysAt(CurNT) : Extend(k, G[CurNT].k[k])
-           \/ (G[CurNT].f # None /\ NFld < GMMaxFld /\ \E uf \in GMFields : Extend(uf, G[CurNT].f))
+           \* (fields in GMBelow - user fields spelled like words of the operator tables - are only tried directly below the matching name)
+           \/ (G[CurNT].f # None /\ NFld < GMMaxFld /\ \E uf \in GMFields :
+                  /\ (uf \in GMBelow => Len(path) > 0 /\ path[Len(path)].k = "zzsecretA")
+                  /\ Extend(uf, G[CurNT].f))
            \/ (G[CurNT].a # None /\ NArr < GMMaxArr /\ Extend("[]", G[CurNT].a))
 
 Next == Walk \/ SeedStep
